@@ -383,32 +383,32 @@ func c11Render(tp c11Template, stmt string) (string, map[string]string) {
 }
 
 var c11Templates = map[string]c11Template{
-	"leaf":            {text: `leaf x { %s type string; } leaf keep { type string; } }`, probe: "x"},
-	"container":       {text: `container x { %s leaf y { type string; } } leaf keep { type string; } }`, probe: "x"},
-	"list":            {text: `list x { %s key k; leaf k { type string; } } leaf keep { type string; } }`, probe: "x"},
-	"leaf-list":       {text: `leaf-list x { %s type string; } leaf keep { type string; } }`, probe: "x"},
-	"choice":          {text: `choice x { %s case k { leaf y { type string; } } } leaf keep { type string; } }`, probe: "x"},
-	"case":            {text: `choice ch { case x { %s leaf y { type string; } } case k { leaf z { type string; } } } leaf keep { type string; } }`, probe: "ch/x"},
-	"uses":            {text: `grouping g { leaf x { type string; } } container u { uses g { %s } leaf keep { type string; } } }`, probe: "u/x"},
-	"augment":         {text: `container u { leaf keep { type string; } } augment "/u" { %s leaf x { type string; } } }`, probe: "u/x"},
-	"uses-augment":    {text: `grouping g { container gc { leaf keep { type string; } } } container u { uses g { augment gc { %s leaf x { type string; } } } } }`, probe: "u/gc/x"},
-	"refine":          {text: `grouping g { leaf x { type string; } leaf keep { type string; } } container u { uses g { refine x { %s description "refined"; } refine keep { description "also"; } } } }`, probe: "refine"},
-	"two-if-features": {text: `leaf x { %s type string; } leaf keep { type string; } }`, probe: "x"},
-	"anydata":         {text: `anydata x { %s } leaf keep { type string; } }`, probe: "x"},
-	"rpc":             {text: `rpc x { %s } leaf keep { type string; } }`, probe: "x"},
-	"notification":    {text: `notification x { %s } leaf keep { type string; } }`, probe: "x"},
-	"case-in-augment":           {text: `choice ch { case k { leaf z { type string; } } } leaf keep { type string; } augment "/ch" { case x { %s leaf y { type string; } } } }`, probe: "ch/x"},
-	"leaf-in-augment-of-choice": {text: `choice ch { case k { leaf z { type string; } } } leaf keep { type string; } augment "/ch" { leaf x { %s type string; } } }`, probe: "ch/x"},
-	"case-in-uses-augment":      {text: `grouping g { choice ch { case k { leaf z { type string; } } } } container u { uses g { augment ch { case x { %s leaf y { type string; } } } } leaf keep { type string; } } }`, probe: "u/ch/x"},
-	"case-in-grouping":          {text: `grouping g { choice ch { case x { %s leaf y { type string; } } case k { leaf z { type string; } } } } container u { uses g; leaf keep { type string; } } }`, probe: "u/ch/x"},
-	"leaf-in-grouping":          {text: `grouping g { container gc { leaf x { %s type string; } leaf keep { type string; } } } container u { uses g; } }`, probe: "u/gc/x"},
-	"action":                    {text: `container u { action x { %s } leaf keep { type string; } } }`, probe: "u/x"},
-	"action-in-grouping":        {text: `grouping g { action x { %s } leaf keep { type string; } } container u { uses g; } }`, probe: "u/x"},
-	"notification-in-grouping":  {text: `grouping g { notification x { %s } leaf keep { type string; } } container u { uses g; } }`, probe: "u/x"},
-	"leaf-in-submodule":         {text: `leaf keep { type string; } }`, probe: "x", sub: `leaf x { %s type string; } `},
-	"augment-in-submodule":      {text: `container u { leaf keep { type string; } } }`, probe: "u/x", sub: `augment "/u" { %s leaf x { type string; } } `},
-	"features-in-submodule":     {text: `leaf x { %s type string; } leaf keep { type string; } }`, probe: "x", sub: `leaf subkeep { type string; } `, subFeatures: true},
-	"both-in-submodule":         {text: `leaf keep { type string; } }`, probe: "x", sub: `leaf x { %s type string; } `, subFeatures: true},
+	"leaf":                         {text: `leaf x { %s type string; } leaf keep { type string; } }`, probe: "x"},
+	"container":                    {text: `container x { %s leaf y { type string; } } leaf keep { type string; } }`, probe: "x"},
+	"list":                         {text: `list x { %s key k; leaf k { type string; } } leaf keep { type string; } }`, probe: "x"},
+	"leaf-list":                    {text: `leaf-list x { %s type string; } leaf keep { type string; } }`, probe: "x"},
+	"choice":                       {text: `choice x { %s case k { leaf y { type string; } } } leaf keep { type string; } }`, probe: "x"},
+	"case":                         {text: `choice ch { case x { %s leaf y { type string; } } case k { leaf z { type string; } } } leaf keep { type string; } }`, probe: "ch/x"},
+	"uses":                         {text: `grouping g { leaf x { type string; } } container u { uses g { %s } leaf keep { type string; } } }`, probe: "u/x"},
+	"augment":                      {text: `container u { leaf keep { type string; } } augment "/u" { %s leaf x { type string; } } }`, probe: "u/x"},
+	"uses-augment":                 {text: `grouping g { container gc { leaf keep { type string; } } } container u { uses g { augment gc { %s leaf x { type string; } } } } }`, probe: "u/gc/x"},
+	"refine":                       {text: `grouping g { leaf x { type string; } leaf keep { type string; } } container u { uses g { refine x { %s description "refined"; } refine keep { description "also"; } } } }`, probe: "refine"},
+	"two-if-features":              {text: `leaf x { %s type string; } leaf keep { type string; } }`, probe: "x"},
+	"anydata":                      {text: `anydata x { %s } leaf keep { type string; } }`, probe: "x"},
+	"rpc":                          {text: `rpc x { %s } leaf keep { type string; } }`, probe: "x"},
+	"notification":                 {text: `notification x { %s } leaf keep { type string; } }`, probe: "x"},
+	"case-in-augment":              {text: `choice ch { case k { leaf z { type string; } } } leaf keep { type string; } augment "/ch" { case x { %s leaf y { type string; } } } }`, probe: "ch/x"},
+	"leaf-in-augment-of-choice":    {text: `choice ch { case k { leaf z { type string; } } } leaf keep { type string; } augment "/ch" { leaf x { %s type string; } } }`, probe: "ch/x"},
+	"case-in-uses-augment":         {text: `grouping g { choice ch { case k { leaf z { type string; } } } } container u { uses g { augment ch { case x { %s leaf y { type string; } } } } leaf keep { type string; } } }`, probe: "u/ch/x"},
+	"case-in-grouping":             {text: `grouping g { choice ch { case x { %s leaf y { type string; } } case k { leaf z { type string; } } } } container u { uses g; leaf keep { type string; } } }`, probe: "u/ch/x"},
+	"leaf-in-grouping":             {text: `grouping g { container gc { leaf x { %s type string; } leaf keep { type string; } } } container u { uses g; } }`, probe: "u/gc/x"},
+	"action":                       {text: `container u { action x { %s } leaf keep { type string; } } }`, probe: "u/x"},
+	"action-in-grouping":           {text: `grouping g { action x { %s } leaf keep { type string; } } container u { uses g; } }`, probe: "u/x"},
+	"notification-in-grouping":     {text: `grouping g { notification x { %s } leaf keep { type string; } } container u { uses g; } }`, probe: "u/x"},
+	"leaf-in-submodule":            {text: `leaf keep { type string; } }`, probe: "x", sub: `leaf x { %s type string; } `},
+	"augment-in-submodule":         {text: `container u { leaf keep { type string; } } }`, probe: "u/x", sub: `augment "/u" { %s leaf x { type string; } } `},
+	"features-in-submodule":        {text: `leaf x { %s type string; } leaf keep { type string; } }`, probe: "x", sub: `leaf subkeep { type string; } `, subFeatures: true},
+	"both-in-submodule":            {text: `leaf keep { type string; } }`, probe: "x", sub: `leaf x { %s type string; } `, subFeatures: true},
 	"action-in-augment":            {text: `container u { leaf keep { type string; } } augment "/u" { action x { %s } } }`, probe: "u/x"},
 	"notification-in-augment":      {text: `container u { leaf keep { type string; } } augment "/u" { notification x { %s } } }`, probe: "u/x"},
 	"action-in-uses-augment":       {text: `grouping g { container gc { leaf keep { type string; } } } container u { uses g { augment gc { action x { %s } } } } }`, probe: "u/gc/x"},
@@ -417,9 +417,9 @@ var c11Templates = map[string]c11Template{
 	"leaf-in-rpc-input":            {text: `rpc r { input { leaf x { %s type string; } leaf keep { type string; } } } }`, probe: "r/input/x"},
 	"leaf-in-action-output":        {text: `container u { action r { output { leaf x { %s type string; } leaf keep { type string; } } } } }`, probe: "u/r/output/x"},
 	"leaf-in-notification":         {text: `notification n { leaf x { %s type string; } leaf keep { type string; } } }`, probe: "n/x"},
-	"uses-in-augment":           {text: `grouping g { leaf x { type string; } } container u { leaf keep { type string; } } augment "/u" { uses g { %s } } }`, probe: "u/x"},
-	"uses-in-case":              {text: `grouping g { leaf x { type string; } } choice ch { case k { uses g { %s } leaf keep { type string; } } } }`, probe: "ch/k/x"},
-	"choice-in-case":            {text: `choice ch { case k { choice x { %s leaf y { type string; } } leaf keep { type string; } } } }`, probe: "ch/k/x"},
+	"uses-in-augment":              {text: `grouping g { leaf x { type string; } } container u { leaf keep { type string; } } augment "/u" { uses g { %s } } }`, probe: "u/x"},
+	"uses-in-case":                 {text: `grouping g { leaf x { type string; } } choice ch { case k { uses g { %s } leaf keep { type string; } } } }`, probe: "ch/k/x"},
+	"choice-in-case":               {text: `choice ch { case k { choice x { %s leaf y { type string; } } leaf keep { type string; } } } }`, probe: "ch/k/x"},
 }
 
 func c11Probe(m *meta.Module, place string) (present bool, extra string) {
